@@ -17,6 +17,7 @@ NF_none == {}
 NF_Tri  == {<<2, 3>>, <<3, 3>>}
 C_Tri12 == {<<1, 2, 2, 2>>, <<2, 3, 3, 3>>}      \* cables Cut may touch in the triangle
 
+C_Tri1  == {<<1, 2, 2, 2>>}
 H2 == {1, 2}
 H3 == {1, 2, 3}
 At1_3 == (1 :> <<1, 1>>) @@ (2 :> <<1, 2>>) @@ (3 :> <<1, 3>>)
